@@ -142,11 +142,18 @@ type vauHarness struct {
 	// universe of the case (for the reference listings)
 	accts []uint64
 	keys  map[string]bool
+	// dead: an operation of this case panicked inside the trackers (possibly while holding their locks): the case is
+	// abandoned — no further call into it, not even Close — until the next reset
+	dead bool
 }
 
 var vauVersions = []protocol.ConsensusVersion{protocol.ConsensusCurrentVersion, protocol.ConsensusFuture}
 
 func (h *vauHarness) closeCase() {
+	if h.dead {
+		h.ml, h.au, h.dead = nil, nil, false
+		return
+	}
 	if h.ml != nil {
 		h.ml.Close()
 		h.ml = nil
@@ -649,6 +656,9 @@ func (h *vauHarness) exec(op string) string {
 	f := strings.Fields(op)
 	if len(f) == 0 {
 		return "bad-op"
+	}
+	if f[0] != "reset" && h.dead {
+		return "dead"
 	}
 	if f[0] != "reset" && h.au == nil {
 		return "no-case"
@@ -1272,6 +1282,9 @@ func TestVerifAu(t *testing.T) {
 	}
 	for _, op := range ops {
 		res := vh.Catch(func() string { return h.exec(op) })
+		if strings.HasPrefix(res, "PANIC") {
+			h.dead = true
+		}
 		out.Emit(op, res)
 	}
 }
